@@ -23,7 +23,8 @@ BOUNDARY = [-(2**63) - 1, -(2**63), -(2**63) + 1, -1, 0, 1, 2**31, 2**32, 2**53 
             2**64 - 1, 2**64, 2**64 + 1, -(2**64), 2**70, -(2**70), 12345678901234567890]
 FORMS = ["annassign", "return", "comptime", "tuple", "array", "unannotated", "argument", "comptime_tuple"]
 HDR = ("from guppylang import guppy\n"
-       "from guppylang.std.builtins import result, nat, array, comptime\n\n"
+       "from guppylang.std.builtins import result, nat, array, comptime\n"
+       "from guppylang.std.platform import _result_nat\n\n"
        "@guppy\ndef id_int(x: int) -> int:\n    return x\n\n"
        "@guppy\ndef id_nat(x: nat) -> nat:\n    return x\n\n")
 
@@ -98,6 +99,9 @@ def run_case(ctx, rng, idx, params, tier):
         v = rng.choice(BOUNDARY) if rng.random() < 0.6 else rng.choice([1, -1]) * rng.getrandbits(rng.randint(1, 70))
         ty = rng.choice(["int", "nat"])
         form = rng.choice(FORMS)
+        if k == 0:
+            # fixed probe of the public `result` overload with a nat >= 2^63 (reported via k % 4 == 0)
+            v, ty, form = rng.choice([U64 - 1, I63, I63 + 12345]), "nat", rng.choice(["annassign", "return"])
         if form == "unannotated":
             ty = "int"  # an unannotated literal is synthesised at int
         src, acc = probe_src(k, form, ty, v, rng)
@@ -132,19 +136,27 @@ def run_case(ctx, rng, idx, params, tier):
             accepted.append((k, form, ty, v))
     if accepted:
         main = HDR + "".join(src for k, _, _, _, _, src in probes if any(a[0] == k for a in accepted))
+        # nat values are observed through the nat variant of `result` directly; every fourth one
+        # through the public overload, which is where the known finding
+        # C17:nat>=2^63-reported-as-negative-through-result-overload lives
+        via_overload = {k for k, _, ty, _ in accepted if ty == "nat" and k % 4 == 0}
         main += "@guppy\ndef main() -> None:\n" + "".join(
-            f'    result("v{k}", p{k}())\n' for k, _, _, _ in accepted)
+            f'    {"_result_nat" if ty == "nat" and k not in via_overload else "result"}("v{k}", p{k}())\n'
+            for k, _, ty, _ in accepted)
         try:
             ld2 = ctx.load(main, "litrun")
             out = ctx.emulate(ld2.main.compile())
             stream = out.stream()
             for (k, form, ty, v), (tag, got) in zip(accepted, stream):
                 counters["literals_emulated"] += 1
-                if ty == "nat" and isinstance(got, int) and got < 0:
-                    got += U64
                 if got != v:
-                    viols.append({"mech": f"C17:value-not-preserved:{form}:{ty}",
-                                  "witness": {"form": form, "type": ty, "value": v, "observed": got}})
+                    mech = f"C17:value-not-preserved:{form}:{ty}"
+                    if k in via_overload and v >= I63 and got == v - U64:
+                        mech = "C17:nat>=2^63-reported-as-negative-through-result-overload"
+                    viols.append({"mech": mech,
+                                  "witness": {"form": form, "type": ty, "value": v, "observed": got,
+                                              "reported_via": "result" if k in via_overload or ty != "nat"
+                                              else "_result_nat"}})
             if out.panic or len(stream) != len(accepted):
                 viols.append({"mech": "C17:panic-or-missing-results",
                               "witness": {"panic": out.panic, "n": len(stream), "expected_n": len(accepted)}})
